@@ -49,6 +49,9 @@ type Point struct {
 	Names   []string // where each enabled thread is parked
 	Chosen  int      // index into Enabled
 	RunningStillEnabled bool
+	// Choice marks a data choice made by the running thread (Choose) rather than a scheduling decision:
+	// Enabled is 0..n-1 and no thread is switched.
+	Choice bool
 }
 
 type thread struct {
@@ -190,6 +193,27 @@ func (s *Threads) Release(l *zzvsync.Lock, write bool) {
 	}
 }
 
+// Choose is called by the running thread (or a daemon goroutine running between two releases) to take one of n
+// alternatives; it is part of the explored schedule: the prefix decides, beyond it alternative 0 is taken and
+// ExploreSchedules enumerates the others (at no preemption cost).
+func (s *Threads) Choose(name string, n int) int {
+	idx := len(s.Points)
+	choice := 0
+	if idx < len(s.prefix) {
+		choice = s.prefix[idx]
+		if choice >= n {
+			panic(fmt.Sprintf("vx: schedule prefix diverged at step %d: choice %d of %d alternatives at %s", idx, choice, n, name))
+		}
+	}
+	p := Point{Chosen: choice, Choice: true}
+	for i := 0; i < n; i++ {
+		p.Enabled = append(p.Enabled, i)
+		p.Names = append(p.Names, fmt.Sprintf("%s=%d", name, i))
+	}
+	s.Points = append(s.Points, p)
+	return choice
+}
+
 func (s *Threads) enabled() (ids []int, names []string, runningStill bool) {
 	ok := func(th *thread) bool {
 		if th.finished || th.at == "" {
@@ -223,7 +247,7 @@ func (s *Threads) enabled() (ids []int, names []string, runningStill bool) {
 func (s *Threads) Run() {
 	zzvsync.Install(s)
 	defer zzvsync.Install(nil)
-	for step := 0; ; step++ {
+	for {
 		synctest.Wait()
 		ids, names, still := s.enabled()
 		allDone := true
@@ -256,10 +280,10 @@ func (s *Threads) Run() {
 			return
 		}
 		choice := 0
-		if step < len(s.prefix) {
-			choice = s.prefix[step]
+		if at := len(s.Points); at < len(s.prefix) {
+			choice = s.prefix[at]
 			if choice >= len(ids) {
-				panic(fmt.Sprintf("vx: schedule prefix diverged at step %d: choice %d of %d enabled", step, choice, len(ids)))
+				panic(fmt.Sprintf("vx: schedule prefix diverged at step %d: choice %d of %d enabled", at, choice, len(ids)))
 			}
 		}
 		s.Points = append(s.Points, Point{Enabled: ids, Names: names, Chosen: choice, RunningStillEnabled: still})
@@ -304,6 +328,10 @@ func (s *Threads) ScheduleString() string {
 	for i, p := range s.Points {
 		if i > 0 {
 			sb.WriteByte(' ')
+		}
+		if p.Choice {
+			fmt.Fprintf(&sb, "[%s]", p.Names[p.Chosen])
+			continue
 		}
 		fmt.Fprintf(&sb, "%s@%s", s.threads[p.Enabled[p.Chosen]].name, p.Names[p.Chosen])
 	}
